@@ -17,7 +17,7 @@ FACTORS = (None, 0, 1.3, 2.4, 2.5, 2.51, 12.0, 30.0, 64.0, 99.0)
 
 
 def plan(tier, seed):
-    n = 1500 if tier == "quick" else 40000
+    n = 6000 if tier == "quick" else 60000
     kinds = ["single", "single", "inplay", "two_markets_seq", "two_markets_event", "no_factors", "single"]
     return [{"seed": seed, "idx": i, "kind": kinds[i % len(kinds)]} for i in range(n)]
 
